@@ -80,12 +80,9 @@ func (g *schemaGenerator) generateReferencedType(t *schemas.Type) (codegen.Type,
 	}
 
 	if t.Ref == "#" {
-		if schemaOutput, ok := g.outputs[g.schema.ID]; ok {
-			if decl, ok := schemaOutput.declsBySchema[t]; ok {
-				if decl != nil {
-					return decl.Type, nil
-				}
-			}
+		// The document's own root type, which may still be under construction.
+		if decl, ok := g.output.declsByName[g.getRootTypeName(g.schema, g.schemaFileName)]; ok {
+			return &codegen.NamedType{Decl: decl}, nil
 		}
 
 		return codegen.EmptyInterfaceType{}, nil
